@@ -174,8 +174,13 @@ fn run_typed<H: Hk>(inp: &Input) -> Outcome {
             pre = Some(Hook { cv, datalen: dl as u64, buffered: buf[..pos].to_vec() });
             if inp.upto > inp.prestream {
                 let mut c = h.clone();
-                let off = (inp.prestream % 251) as usize;
-                Digest::update(&mut c, &pat[off..off + (inp.upto - inp.prestream) as usize]);
+                let mut at = inp.prestream;
+                while at < inp.upto {
+                    let n = (inp.upto - at).min(1 << 20) as usize;
+                    let off = (at % 251) as usize;
+                    Digest::update(&mut c, &pat[off..off + n]);
+                    at += n as u64;
+                }
                 let (cv, dl, buf, pos) = c.get();
                 at_upto = Some(Hook { cv, datalen: dl as u64, buffered: buf[..pos].to_vec() });
             }
@@ -234,9 +239,16 @@ fn split_for(rng: &mut Rng, len: usize) -> usize {
     s.min(len)
 }
 
-const BIG_N: u64 = (1u64 << 29) + 64;
+/// size of the single update call: 2^29 + 64 bytes (bit length crosses 2^32 inside one call), or with `--big-update 2`
+/// 2^32 + 100 bytes (a slice length that does not fit in 32 bits; thorough tier: 4 GiB buffer, ~40 s)
+fn big_n(big_update: u64) -> u64 {
+    if big_update >= 2 { (1u64 << 32) + 100 } else { (1u64 << 29) + 64 }
+}
 
-fn gen_inputs(rng: &mut Rng, thorough: bool, streams: &str, real: u64, big_update: bool, seed: u64) -> Vec<Input> {
+fn gen_inputs(rng: &mut Rng, thorough: bool, streams: &str, real: u64, big_update: u64, seed: u64) -> Vec<Input> {
+    #[allow(non_snake_case)]
+    let BIG_N = big_n(big_update);
+    let big_update = big_update != 0;
     let mut v = Vec::new();
     // R: really stream up to just below 2^29 bytes (2^32 bits), then cross the boundary (the streamed object
     //    itself is continued); which variant comes first rotates with the seed
@@ -255,7 +267,7 @@ fn gen_inputs(rng: &mut Rng, thorough: bool, streams: &str, real: u64, big_updat
     if big_update {
         let size = SIZES[((1 + seed) % 4) as usize];
         let msg = content(rng, 2, 77);
-        v.push(Input { size, hook: None, msg, split: 77, stream: "single_update_2^29+64", prestream: BIG_N, one_call: true, upto: 0 });
+        v.push(Input { size, hook: None, msg, split: 77, stream: if BIG_N > (1u64 << 32) { "single_update_2^32+100" } else { "single_update_2^29+64" }, prestream: BIG_N, one_call: true, upto: 0 });
     }
     if streams == "reduced" {
         // A': the padding boundaries for all four variants, every 8th other length (variant rotating)
@@ -401,7 +413,7 @@ fn digest_main(a: &Args) {
 
     let mut rng = Rng::new(seed ^ 0x6a68_0006);
     let real = a.u64("real", 0);
-    let big_update = a.u64("big-update", 0) != 0;
+    let big_update = a.u64("big-update", 0);
     let inputs = gen_inputs(&mut rng, thorough, &streams, real, big_update, seed);
     let mut chunked_at_big: Option<Hook> = None;
     let (mut len_checked, mut bad_len) = (0usize, 0usize);
@@ -858,7 +870,7 @@ fn repro() {
 fn main() {
     let argv: Vec<String> = std::env::args().collect();
     if argv.len() < 2 {
-        eprintln!("usage: h_jh digest|f8|repro [--seed N --shards N --out DIR --tier quick|thorough --streams all|reduced|hook --real N --big-update 0|1 --level 0..5 --runner R]");
+        eprintln!("usage: h_jh digest|f8|repro [--seed N --shards N --out DIR --tier quick|thorough --streams all|reduced|hook --real N --big-update 0|1|2 --level 0..5 --runner R]");
         std::process::exit(2);
     }
     let a = Args::parse(&argv[2..]);
